@@ -94,7 +94,7 @@ func (o modeOpts) initial() modeSpec {
 	return m
 }
 
-var exitKinds = []string{"quit", "kill", "ctx", "interrupt", "readerr", "panic-update", "panic-cmd", "panic-view", "startup-fail"}
+var exitKinds = []string{"quit", "kill", "ctx", "interrupt", "readerr", "panic-update", "panic-cmd", "panic-view", "startup-fail", "tty-hangup-quit", "tty-hangup-kill"}
 
 func scenModes(out *scenOut, r *rng, thorough bool) {
 	out.Rule = "all 32 subsets of startup options (alt screen, mouse cell/all motion, no bracketed paste, focus) x seeded histories of 0..12 mode commands x 9 exit kinds (incl. start-up failure after terminal initialisation), modes sampled from the output inside Update after every command and after Run returns; distinct = (options, history, exit kind)"
@@ -109,7 +109,7 @@ func scenModes(out *scenOut, r *rng, thorough bool) {
 		for bits := 0; bits < 32; bits++ {
 			o := modeOpts{alt: bits&1 != 0, cell: bits&2 != 0, all: bits&4 != 0, nopaste: bits&8 != 0, focus: bits&16 != 0}
 			for _, ek := range exitKinds {
-				if !thorough && r.chance(1, 2) && ek != "startup-fail" {
+				if !thorough && r.chance(1, 2) && ek != "startup-fail" && !strings.HasPrefix(ek, "tty-hangup") {
 					continue
 				}
 				n := r.intn(13)
@@ -168,7 +168,18 @@ func modesOnce(out *scenOut, o modeOpts, ek string, hist []int) {
 	parent, cancel := context.WithCancel(context.Background())
 	defer cancel()
 	opts = append(opts, tea.WithContext(parent))
+	var hang *ptyPair
 	switch ek {
+	case "tty-hangup-quit", "tty-hangup-kill":
+		// input is a real terminal (raw mode is entered); it is hung up while the
+		// program runs, so putting its line discipline back fails at exit
+		pp, err := openPty()
+		if err != nil {
+			return
+		}
+		hang = pp
+		defer pp.slave.Close()
+		opts = append(opts, tea.WithInput(pp.slave))
 	case "readerr":
 		opts = append(opts, tea.WithInput(errReader{g: readGate, err: errInjectedRead}))
 	case "startup-fail":
@@ -206,6 +217,14 @@ func modesOnce(out *scenOut, o modeOpts, ek string, hist []int) {
 		run.p.Send(userMsg{0, 0}) // everything before it has been processed
 		waitFor(2*time.Second, func() bool { return ctl.log.has("update-exit", "u0.0") })
 		switch ek {
+		case "tty-hangup-quit":
+			hang.master.Close()
+			time.Sleep(5 * time.Millisecond)
+			run.p.Quit()
+		case "tty-hangup-kill":
+			hang.master.Close()
+			time.Sleep(5 * time.Millisecond)
+			run.p.Kill()
 		case "quit":
 			run.p.Quit()
 		case "kill":
